@@ -71,7 +71,18 @@ def gen_opnorm_case(rng):
         top = rng.choice([1.0, 2.0, 5.0])
         sv = [top] * min(2, k) + [top * rng.uniform(0.9, 1.0) for _ in range(max(0, k - 2))]
     return {"kind": kind, "n": n, "m": m, "sv": sv, "gap": gap, "seed": rng.randint(0, 10**6),
+            "scale_exp": rng.choice([-20, -17, -14, -10, -7, -3, 0, 0, 3, 7, 10, 14, 20]),   # 2^k: 1e-6 .. 1e+6
             "key": rng.randint(0, 1000), "budgets": sorted(set([1, 2, rng.randint(3, 40), rng.choice([60, 100, 150]), 200]))}
+
+
+def fixed_opnorm_cases():
+    """Small- and large-norm operators on every run (norms ~1e-6 .. 1e+6), gap => convergence demanded."""
+    out = []
+    for i, (kind, k) in enumerate([("diag", -13), ("dense", -15), ("densec", -17), ("diagc", -20), ("jac", -14),
+                                   ("dense", 20), ("diag", 14), ("dense", -10)]):
+        out.append({"kind": kind, "n": 3, "m": 4, "sv": [3.0, 1.0, 0.5], "gap": True, "seed": 11 + i, "scale_exp": k,
+                    "key": 5 + i, "budgets": [1, 7, 200]})
+    return out
 
 
 def build_op(case):
@@ -79,7 +90,9 @@ def build_op(case):
     import scico.numpy as snp
     from scico import linop, operator
     rs = np.random.RandomState(case["seed"])
-    kind, n, m, sv = case["kind"], case["n"], case["m"], case["sv"]
+    kind, n, m = case["kind"], case["n"], case["m"]
+    scale = 2.0 ** case.get("scale_exp", 0)
+    sv = [t * scale for t in case["sv"]]
     if kind == "zero":
         if rs.rand() < 0.5:
             return linop.Diagonal(snp.zeros(n)), np.zeros((n, n))
@@ -101,11 +114,11 @@ def build_op(case):
         U, V = orth(rs, n, False), orth(rs, n, False)
         W = (U * np.array(sv)) @ V.T
         Wj = snp.array(W)
-        F = operator.Operator(input_shape=(n,), output_shape=(n,), input_dtype=np.float64,
-                              eval_fn=lambda x: Wj @ snp.sin(x) + 0.5 * x ** 2)
+        fn = lambda x: Wj @ snp.sin(x) + (0.5 * scale) * x ** 2
+        F = operator.Operator(input_shape=(n,), output_shape=(n,), input_dtype=np.float64, eval_fn=fn)
         x0 = snp.array(rs.uniform(-1, 1, size=n))
         J = linop.jacobian(F, x0)
-        dense = np.array(jax.jacfwd(lambda x: Wj @ snp.sin(x) + 0.5 * x ** 2)(x0))
+        dense = np.array(jax.jacfwd(fn)(x0))
         return J, dense
     raise ValueError(kind)
 
@@ -128,6 +141,12 @@ def check_opnorm(ctx, case, report=True):
                 bad.append("estimate for the zero operator is not exactly 0")
                 if report:
                     ctx.violation("operator_norm", bad[-1], inp, 0.0, e, "C17_zero_operator")
+            continue
+        if e == 0.0 and smax > 0:
+            bad.append("estimate is exactly 0 for a non-zero operator")
+            if report:
+                ctx.violation("operator_norm", bad[-1], inp, f"> 0 (sigma_max = {smax})", e,
+                              "C17_estimate_zero_only_on_kernel / C17_estimate_positive")
             continue
         if not (e <= smax * (1 + 1e-9)):
             bad.append("operator norm estimate exceeds the largest singular value")
@@ -275,13 +294,14 @@ def gen_est_case(rng):
     kind = rng.choice(["pdhg", "pdhg", "pdhg_nl", "padmm", "padmm", "nlpadmm"])
     n, m = rng.randint(1, 4), rng.randint(1, 4)
     c = {"kind": kind, "factor": rng.choice(FACTORS), "ratio": rng.choice(RATIOS), "key": rng.randint(0, 1000),
-         "maxiter": rng.choice(["default", 100, 60, 5, 1, 30, 30, 10]),
+         "maxiter": rng.choice(["default", 100, 60, 5, 1, 30, 30, 10, 3]),
+         "scale_exp": rng.choice([0, 0, 0, -15, -10, 12, -18]),
          "A": [[dy(rng, 1, -2, 2) for _ in range(n)] for _ in range(m)]}
     if all(t == 0 for r in c["A"] for t in r):
         c["A"][0][0] = 1.0
     if kind == "padmm":
         nb = rng.randint(1, 3)
-        c["B"] = None if rng.random() < 0.5 else [[dy(rng, 1, -2, 2) for _ in range(nb)] for _ in range(m)]
+        c["B"] = None if rng.random() < 0.35 else [[dy(rng, 1, -2, 2) for _ in range(nb)] for _ in range(m)]
         if c["B"] is not None and all(t == 0 for r in c["B"] for t in r):
             c["B"][0][0] = -1.0
     if kind in ("pdhg_nl", "nlpadmm"):
@@ -303,12 +323,26 @@ def fixed_est_cases():
             out.append(c)
     for r in RATIOS:
         out.append({"kind": "pdhg", "factor": "default", "ratio": r, "key": 2, "maxiter": 30, "A": [[2.0, 0.0], [0.0, 0.5]]})
+    # explicit B, non-default budgets (B far from converged at 1 / 3 iterations), small-norm operators
+    Bm = [[2.0, 1.0, 0.0], [1.0, 2.0, 1.0], [0.0, 1.0, 1.5]]
+    Am = [[1.0, 2.0, 0.5], [0.0, 1.0, -1.0], [1.5, 0.0, 1.0]]
+    for mi, f, k in ((1, "default", 0), (3, "default", 0), (1, None, 0), (3, 2.0, -15), (1500, "default", 0), (7, "default", -18)):
+        out.append({"kind": "padmm", "factor": f, "ratio": "default", "key": 3, "maxiter": mi, "A": Am, "B": Bm, "scale_exp": k})
+    for kind in ("pdhg", "pdhg_nl", "nlpadmm", "padmm"):
+        for mi, k in ((1, 0), (3, -15), ("default", -17)):
+            c = {"kind": kind, "factor": "default", "ratio": 2.0, "key": 4, "maxiter": mi, "A": Am, "x": [0.5, -0.25, 0.75],
+                 "scale_exp": k}
+            if kind == "padmm":
+                c["B"] = None
+            out.append(c)
     return out
 
 
 def run_est(c):
-    """Call the real estimator with operator_norm wrapped at module level; return
-    (outputs, recorded estimates, true norms)."""
+    """Call the real estimator with the module-level operator_norm wrapped; return the outputs, the
+    record of every operator_norm call (operator, positional / keyword arguments, result), the
+    dense matrices of the operators whose norm must have been estimated, the key and the original
+    operator_norm."""
     import jax
     import scico.numpy as snp
     from scico import linop, operator, function
@@ -322,60 +356,94 @@ def run_est(c):
         kw["maxiter"] = c["maxiter"]
     if c["factor"] != "default":
         kw["factor"] = c["factor"]
-    A = np.array(c["A"], dtype=np.float64)
+    scale = 2.0 ** c.get("scale_exp", 0)
+    A = np.array(c["A"], dtype=np.float64) * scale
     mods = (mpd, mpa)
     origs = [mod.operator_norm for mod in mods]
 
     def wrap(orig):
-        def w(J, maxiter=100, key=None):
-            r = orig(J, maxiter=maxiter, key=key)
-            rec.append(float(r))
+        def w(J, *args, **kwargs):
+            r = orig(J, *args, **kwargs)
+            rec.append({"J": J, "args": args, "kwargs": dict(kwargs), "est": float(r)})
             return r
         return w
     for mod, o in zip(mods, origs):
         mod.operator_norm = wrap(o)
+    ops = None
     try:
         if c["kind"] == "pdhg":
             if c["ratio"] != "default":
                 kw["ratio"] = c["ratio"]
-            out = PDHG.estimate_parameters(linop.MatrixOperator(snp.array(A)), **kw)
-            true = [float(np.linalg.norm(A, 2))]
+            Cop = linop.MatrixOperator(snp.array(A))
+            out = PDHG.estimate_parameters(Cop, **kw)
+            dense, ops = [A], [Cop]
         elif c["kind"] == "pdhg_nl":
             if c["ratio"] != "default":
                 kw["ratio"] = c["ratio"]
             Aj = snp.array(A)
-            fn = lambda x: Aj @ snp.sin(x) + x ** 2
+            fn = lambda x: Aj @ snp.sin(x) + scale * x ** 2
             F = operator.Operator(input_shape=(A.shape[1],), output_shape=(A.shape[0],), input_dtype=np.float64, eval_fn=fn)
-            x = snp.array(np.array(c["x"]))
+            x = snp.array(np.array(c["x"][:A.shape[1]]))
             out = PDHG.estimate_parameters(F, x=x, **kw)
-            true = [float(np.linalg.norm(np.array(jax.jacfwd(fn)(x)), 2))]
+            dense = [np.array(jax.jacfwd(fn)(x))]
         elif c["kind"] == "padmm":
             Aop = linop.MatrixOperator(snp.array(A))
             if c["B"] is None:
                 out = ProximalADMM.estimate_parameters(Aop, **kw)
-                true = [float(np.linalg.norm(A, 2)), 1.0]
+                dense, ops = [A, -np.eye(A.shape[0])], [Aop, None]
             else:
-                B = np.array(c["B"], dtype=np.float64)
-                out = ProximalADMM.estimate_parameters(Aop, linop.MatrixOperator(snp.array(B)), **kw)
-                true = [float(np.linalg.norm(A, 2)), float(np.linalg.norm(B, 2))]
+                B = np.array(c["B"], dtype=np.float64) * scale
+                Bop = linop.MatrixOperator(snp.array(B))
+                out = ProximalADMM.estimate_parameters(Aop, Bop, **kw)
+                dense, ops = [A, B], [Aop, Bop]
         else:
             Aj = snp.array(A)
             n = A.shape[1]
-            fn = lambda x, z: Aj @ snp.sin(x) - 2.0 * z + 0.5 * z ** 2
-            H = function.Function(((n,), (n,)), output_shape=(n,), eval_fn=fn, input_dtypes=np.float64)
-            x = snp.array(np.array(c["x"]))
-            z = snp.array(np.array(c["x"])[::-1].copy())
+            fn = lambda x, z: Aj @ snp.sin(x) - (2.0 * scale) * z + (0.5 * scale) * z ** 2
+            H = function.Function(((n,), (n,)), output_shape=(A.shape[0],), eval_fn=fn, input_dtypes=np.float64)
+            x = snp.array(np.array(c["x"][:n]))
+            z = snp.array(np.array(c["x"][:n])[::-1].copy())
             out = NonLinearPADMM.estimate_parameters(H, x=x, z=z, **kw)
-            true = [float(np.linalg.norm(np.array(jax.jacfwd(fn, 0)(x, z)), 2)),
-                    float(np.linalg.norm(np.array(jax.jacfwd(fn, 1)(x, z)), 2))]
+            dense = [np.array(jax.jacfwd(fn, 0)(x, z)), np.array(jax.jacfwd(fn, 1)(x, z))]
     finally:
         for mod, o in zip(mods, origs):
             mod.operator_norm = o
-    return [float(t) for t in out], rec, true
+    return [float(t) for t in out], rec, dense, ops, key, origs[0]
+
+
+def check_calls(c, rec, dense, ops, key, orig_norm, V, inp):
+    """Every operator_norm call must be made on the right operator with the budget and key the
+    estimator was given; where cheap, the estimate is recomputed independently (same key)."""
+    import scico.numpy as snp
+    from scico import linop
+    want_mi = 100 if c["maxiter"] == "default" else c["maxiter"]
+    for i, (r, D) in enumerate(zip(rec, dense)):
+        nm = "first" if i == 0 else "second"
+        mi = r["kwargs"].get("maxiter", r["args"][0] if len(r["args"]) > 0 else 100)
+        ky = r["kwargs"].get("key", r["args"][1] if len(r["args"]) > 1 else None)
+        if mi != want_mi:
+            V(f"{nm} operator_norm call made with maxiter different from the requested budget",
+              dict(inp, call=i), want_mi, mi, "documentation of estimate_parameters (maxiter)")
+        if ky is None or not np.array_equal(np.asarray(ky), np.asarray(key)):
+            V(f"{nm} operator_norm call not made with the given key", dict(inp, call=i))
+        J = r["J"]
+        if ops is not None and ops[i] is not None and J is not ops[i]:
+            V(f"{nm} operator_norm call not made on the operator passed to the estimator", dict(inp, call=i))
+        t = np.array([1.0, -0.5, 0.25, 2.0, -1.5][:D.shape[1]])
+        got = np.asarray(J(snp.array(t)))
+        if not np.max(np.abs(got - D @ t)) <= 1e-10 * max(np.max(np.abs(D @ t)), 1e-300):
+            V(f"{nm} operator_norm call made on a different operator (Jacobian / B)", dict(inp, call=i))
+        if want_mi <= 100:
+            own = float(orig_norm(linop.MatrixOperator(snp.array(D)), maxiter=want_mi, key=key))
+            if not abs(own - r["est"]) <= 1e-9 * max(own, r["est"]):
+                V(f"{nm} norm estimate differs from operator_norm(op, maxiter, key) recomputed by the harness",
+                  dict(inp, call=i), own, r["est"], "independent recomputation with the same key and budget")
 
 
 def check_est(ctx, c, items, report=True):
-    out, rec, true = run_est(c)
+    out, calls, dense, ops, key, orig_norm = run_est(c)
+    rec = [r["est"] for r in calls]
+    true = [float(np.linalg.norm(D, 2)) for D in dense]
     bad = []
     fac = c["factor"]
     fq = "(Some " + qc(1.01 if fac == "default" else fac) + ")" if fac is not None else "None"
@@ -391,9 +459,15 @@ def check_est(ctx, c, items, report=True):
     if len(rec) != (1 if pd else 2):
         V("unexpected number of operator_norm evaluations", inp)
         return bad
+    check_calls(c, calls, dense, ops, key, orig_norm, V, inp)
     for e, t in zip(rec, true):
         if not e <= t * (1 + 1e-9):
             V("norm estimate used by the estimator exceeds the true norm", inp, t, e, "numpy svd")
+        if e == 0.0 and t > 0:
+            V("norm estimate used by the estimator is exactly 0 for a non-zero operator", inp, f"> 0 (true {t})", e,
+              "C17_estimate_positive")
+    if all(t > 0 for t in true) and not all(math.isfinite(v) and v > 0 for v in out):
+        V("estimated parameters are not finite and positive for a non-zero operator", inp, "finite > 0", out)
     if any(e <= 0 for e in rec):
         return bad
     if pd:
@@ -498,8 +572,8 @@ def run(ctx: Ctx):
     items = new_items()
     import time
     t0 = time.time()
-    for i in range(ctx.n(12, 500)):
-        c = gen_opnorm_case(ctx.rng)
+    ocases = fixed_opnorm_cases() + [gen_opnorm_case(ctx.rng) for _ in range(ctx.n(9, 500))]
+    for c in ocases:
         check_opnorm(ctx, c)
         ctx.count("operator_norm " + c["kind"] + (" gap" if c["gap"] else " no-gap"), c, nontrivial=c["kind"] != "zero")
     t1 = time.time()
@@ -526,14 +600,14 @@ def replay(ctx: Ctx, rec):
     unit, inp, what = rec["unit"], rec["input"], rec["what"]
     items = new_items()
     if unit == "operator_norm":
-        c = {k: inp[k] for k in ("kind", "n", "m", "sv", "gap", "seed", "key", "budgets")}
+        c = {k: inp[k] for k in ("kind", "n", "m", "sv", "gap", "seed", "key", "budgets", "scale_exp") if k in inp}
         return what not in check_opnorm(ctx, c, report=False)
     if unit.endswith(".norm"):
         c = {k: v for k, v in inp.items() if k != "ord"}
         bad = check_norm(ctx, c, items, report=False)
         bad += [w for _, w, i in eval_items(ctx, items, "C17_replay", report=False) if i.get("ord") == inp.get("ord")]
         return what not in bad
-    c = {k: v for k, v in inp.items() if k not in ("estimates", "true_norms", "returned", "product")}
+    c = {k: v for k, v in inp.items() if k not in ("estimates", "true_norms", "returned", "product", "call")}
     bad = check_est(ctx, c, items, report=False)
     bad += [w for _, w, _ in eval_items(ctx, items, "C17_replay", report=False)]
     return what not in bad
